@@ -145,6 +145,10 @@ func MonC01(r *Run, o *Obs) []Finding {
 			case BindSingle:
 				if a.Kind == 'i' {
 					check(b.Targets[0], a.IDs[0], fmt.Sprintf("argument %d of %s (invocation %d, op%d)", k, m.Describe(run.Reg), run.Nth, run.Op))
+				} else if t := b.Targets[0]; m.Regs[t.Reg].Life == godi.Singleton && !anyFailedRun(o) {
+					// the slot is bound to a registered singleton but received no instance at all
+					// (an optional field left zero although its provider exists and cannot fail)
+					fs = append(fs, Finding{"not-injected", m.Features(t.Reg) + ":" + b.Dep.Form.String(), fmt.Sprintf("singleton %s is registered, but argument %d of %s (invocation %d, op%d) received no instance (kind %q)", m.Describe(t.Reg), k, m.Describe(run.Reg), run.Nth, run.Op, string(a.Kind))})
 				}
 			case BindGroup:
 				if len(a.IDs) == len(b.Targets) {
@@ -158,6 +162,15 @@ func MonC01(r *Run, o *Obs) []Finding {
 		}
 	}
 	return fs
+}
+
+func anyFailedRun(o *Obs) bool {
+	for _, run := range o.Runs {
+		if run.Failed != "" {
+			return true
+		}
+	}
+	return false
 }
 
 // ---------------------------------------------------------------- C03
